@@ -5,15 +5,18 @@
    repeated values comma-joined), Signature header and payload bytes ...; A
    write whose URL, signature or header block does not fit the format's length
    fields or limits fails instead of emitting a file that reads back
-   differently."   (The Verify half of C02 is in the SxgVerify development.)
+   differently."   The Verify half ("... and then verifies at every instant of
+   [date, expires] returning the original un-encoded payload; the verdict is
+   the same before and after the write/read round trip") is the second part of
+   this file: section "C02, the Verify half" below.
 
    Model: Model/Sxg.v ([write], [read] = Exchange.Write / ReadExchange).
    Definitions used in the statements: Proofs/SxgReadDefs.v, repeated here:
 
      readable e : bool :=
-          url_accepted (e_uri e)        validateFallbackURL accepts it: url.Parse ok and
-                                        scheme https, *decided* by the URL model
-       && headers_ok (e_resph e)        every response header name is an RFC 7230 token
+          negb (write_taint e)          the URL model DECIDES the fallback URL
+                                        (snd (validate_fallback (e_uri e)) = false)
+       && headers_ok (e_resph e)        every response header name is ASCII
        && int64_b (e_status e)          ResponseStatus is a Go int
        && negb (e_taint e)
        && match e_ver e with
@@ -25,15 +28,27 @@
        the list, sorted by the bytewise order of the encoded key
        enc_bytes (lower name), of (canonical_key (lower name), [join_comma values]).
 
-   Every condition of [readable] is something a caller of the library satisfies
-   with ordinary HTTP data, and each is needed ([readable_conditions_needed]).
+     b3_norm e := e with method "GET" and no request headers.
+
+   What is left in [readable], and why (Write now refuses what ReadExchange
+   refuses - a fallback URL that is not https, a b2 request header named ":url" -
+   so nothing about the URL being acceptable is assumed any more:
+   [c02_write_ok_url], [c02_write_ok_no_url_key]):
+   - ASCII names: ESSENTIAL.  A name that is not valid UTF-8 is written and then
+     refused by the reader; a valid non-ASCII one is beyond the model's
+     strings.ToLower.  Names need NOT be tokens any more (a pseudo key in its own
+     map, or two names equal up to letter case, make Write fail).
+   - b3: method GET and no request headers: ESSENTIAL, by design of the format:
+     [c02_b3_request_part_dropped] says what comes back otherwise, and
+     [c02_b3_stateful_request_header_verdict_flips] shows a verdict changing.
+   - int64 status, negb (write_taint e), negb (e_taint e): model-domain facts with no
+     Go counterpart (the model's Z is wider than int; "undecided" is the URL
+     model's third answer).  Each is needed of the MODEL
+     ([readable_conditions_needed]).
    Not assumed: that names are distinct after lower-casing (such a map is
    refused by Write: duplicate CBOR key), any length bound (they follow from
-   write e = Ok bs), non-empty names, anything about values, method (b1/b2),
-   Signature header value or payload.  Token names are a sufficient, legitimate
-   domain rather than the weakest one: a non-token ASCII name that is not a
-   pseudo key would round-trip too (canonical_key leaves it alone), a non-ASCII
-   one makes the reader fail or depend on strings.ToLower beyond the model. *)
+   write e = Ok bs), non-empty or token names, anything about values, method
+   (b1/b2), Signature header value or payload, the URL being https. *)
 From Coq Require Import Lia.
 From WP Require Import Base.Prelude Model.Cbor Model.Http Model.Sxg.
 From WP Require Import Proofs.CborDecode Proofs.SxgReadDefs Proofs.SxgRoundtrip.
@@ -67,11 +82,33 @@ Print Assumptions c02_write_refuses_overflow.
 
 Theorem c02_write_err_iff : forall e, e_ver e <> V1b1 ->
   (write e = Err <->
+   write_refuses e = true \/
    encode_exchange_headers e = Err \/
    exists hdr, encode_exchange_headers e = Ok hdr /\
      (65536 <= lenN (e_uri e) \/ 16384 < lenN (e_sig e) \/ 524288 < lenN hdr)).
 Proof. exact write_err_iff. Qed.
 Print Assumptions c02_write_err_iff.
+
+(* ---- Write refuses what ReadExchange refuses -------------------------------------------- *)
+(* write_refuses e := negb (fst (validate_fallback (e_uri e)))
+                      || (b2: some request header name lower-cases to ":url") *)
+Theorem c02_write_ok_url : forall e bs,
+  write e = Ok bs -> fst (validate_fallback (e_uri e)) = true.
+Proof. exact write_ok_url. Qed.
+Print Assumptions c02_write_ok_url.
+
+Theorem c02_write_ok_no_url_key : forall e bs,
+  write e = Ok bs -> e_ver e = V1b2 ->
+  existsb (fun nv => bytes_eqb (lower (fst nv)) (s2b ":url")) (e_reqh e) = false.
+Proof. exact write_ok_no_url_key. Qed.
+Print Assumptions c02_write_ok_no_url_key.
+
+(* ---- b3 stores neither method nor request headers ------------------------------------------ *)
+Theorem c02_b3_request_part_dropped : forall e bs,
+  e_ver e = V1b3 -> readable (b3_norm e) = true -> write e = Ok bs ->
+  read bs = Ok (canon_exchange (b3_norm e)).
+Proof. exact b3_request_part_dropped. Qed.
+Print Assumptions c02_b3_request_part_dropped.
 
 (* ---- the reader's result is a fixpoint ---------------------------------------------------- *)
 Theorem c02_canon_idempotent : forall e, canon_exchange (canon_exchange e) = canon_exchange e.
@@ -206,21 +243,68 @@ Definition reads_back (e : exchange) : option bool :=
              end
   | _ => Some true                    (* not written *)
   end.
+Definition set_taint1 (e : exchange) : exchange :=
+  {| e_ver := e_ver e; e_uri := e_uri e; e_method := e_method e; e_reqh := e_reqh e;
+     e_status := e_status e; e_resph := e_resph e; e_sig := e_sig e; e_payload := e_payload e;
+     e_taint := true |}.
 Example readable_conditions_needed :
-  (* http URL: written, not readable *)
-  reads_back (mk V1b3 (s2b "http://example.com/") (s2b "GET") [] 200%Z []) = None /\
+  (* ESSENTIAL (rebuildable in Go) *)
   (* b3 with another method: reads back as GET *)
   reads_back (mk V1b3 url1 (s2b "POST") [] 200%Z []) = Some false /\
   (* b3 with request headers: they are dropped *)
   reads_back (mk V1b3 url1 (s2b "GET") rq1 200%Z []) = Some false /\
-  (* a non-ASCII header name that is invalid UTF-8: the reader refuses the key *)
+  (* a header name that is not ASCII and not valid UTF-8 (one byte 0xC8), response
+     or request: written, the reader refuses the key *)
   reads_back (mk V1b3 url1 (s2b "GET") [] 200%Z [([200], [[1]])]) = None /\
-  (* a request header named ":method" (not a token): Write refuses (duplicate key) *)
-  write (mk V1b2 url1 (s2b "GET") [(s2b ":method", [s2b "PUT"])] 200%Z []) = Err /\
-  (* a request header named ":url" (not a token) in b2: written, but the reader
-     rejects the deprecated key *)
-  reads_back (mk V1b2 url1 (s2b "GET") [(s2b ":url", [url1])] 200%Z []) = None.
+  reads_back (mk V1b2 url1 (s2b "GET") [([200], [[1]])] 200%Z []) = None /\
+  (* MODEL-DOMAIN (no Go counterpart) *)
+  (* a status outside int64: written in decimal, strconv.Atoi fails *)
+  reads_back (mk V1b3 url1 (s2b "GET") [] 9223372036854775808%Z []) = None /\
+  (* a URL the URL model leaves undecided (userinfo): what is read is tainted *)
+  reads_back (mk V1b3 (s2b "https://user@example.com/") (s2b "GET") [] 200%Z []) = Some false /\
+  (* an exchange already tainted: the reader's result is not *)
+  reads_back (set_taint1 (mk V1b3 url1 (s2b "GET") [] 200%Z [])) = Some false.
 Proof. vm_compute. repeat split. Qed.
+
+(* Write refuses what ReadExchange would refuse (before the repair these were
+   written: "readable" had to ask for an acceptable URL, and a b2 ":url" request
+   header gave a file the reader rejected) *)
+Example ex_write_refuses :
+  (* not https *)
+  write (mk V1b3 (s2b "http://example.com/") (s2b "GET") [] 200%Z []) = Err /\
+  write (mk V1b2 (s2b "http://example.com/") (s2b "GET") [] 200%Z []) = Err /\
+  write (mk V1b1 (s2b "ftp://example.com/x") (s2b "GET") [] 200%Z []) = Err /\
+  (* url.Parse fails *)
+  write (mk V1b3 (s2b "https://example.com/%zz") (s2b "GET") [] 200%Z []) = Err /\
+  (* b2: a request header named ":url", in any letter case *)
+  write (mk V1b2 url1 (s2b "GET") [(s2b ":url", [url1])] 200%Z []) = Err /\
+  write (mk V1b2 url1 (s2b "GET") [(s2b ":URL", [url1])] 200%Z []) = Err /\
+  write_refuses (mk V1b2 url1 (s2b "GET") [(s2b ":Url", [url1])] 200%Z []) = true /\
+  (* a header named like a pseudo key of its own map: duplicate CBOR key *)
+  write (mk V1b2 url1 (s2b "GET") [(s2b ":method", [s2b "PUT"])] 200%Z []) = Err /\
+  write (mk V1b1 url1 (s2b "GET") [(s2b ":url", [url1])] 200%Z []) = Err /\
+  write (mk V1b3 url1 (s2b "GET") [] 200%Z [(s2b ":Status", [s2b "200"])]) = Err.
+Proof. vm_compute. repeat split. Qed.
+
+(* relative references ("/x", "") and every scheme other than https are refused by the
+   model's Write as by Go's (url.Parse succeeds with scheme "" <> "https", or fails): outside
+   the decided class of the URL model only https URLs stay undecided. *)
+Example ex_relative_urls_refused :
+  validate_fallback (s2b "/x") = (false, false) /\ validate_fallback [] = (false, false) /\
+  validate_fallback (s2b "mailto:a@b") = (false, false) /\
+  write (mk V1b3 (s2b "/x") (s2b "GET") [] 200%Z []) = Err /\
+  write (mk V1b2 [] (s2b "GET") [] 200%Z []) = Err /\
+  validate_fallback (s2b "https://user@example.com/") = (true, true).
+Proof. vm_compute. repeat split. Qed.
+
+(* names need not be tokens: any ASCII name that Write accepts comes back (a
+   pseudo key of the OTHER map, spaces, parentheses, the empty name) *)
+Example ex_nontoken_names_roundtrip :
+  roundtrips (mk V1b2 url1 (s2b "GET") [(s2b ":status", [s2b "x"]); (s2b "(odd) name", [s2b "y"])]
+                 200%Z [(s2b ":method", [s2b "z"]); (s2b ":url", [s2b "u"]); (s2b "a b", [[1]; [2]]);
+                        ([], [s2b "empty"])]) = true /\
+  roundtrips (mk V1b1 url1 (s2b "PUT") [(s2b ":STATUS", [[0]])] 200%Z [(s2b "A@B", [])]) = true.
+Proof. vm_compute. split; reflexivity. Qed.
 
 (* the reader on garbage *)
 Example ex_read_garbage :
@@ -240,38 +324,57 @@ Proof. vm_compute. repeat split. Qed.
    Model: [verify] = Exchange.Verify with its oracles (SHA-256, x509 key
    identification, signature check, http.StatusText, certificate fetch) as
    parameters; [mi_encode_payload], [signed_message], [signature_header_value]
-   = the signer's steps.  Proofs: Proofs/SxgRoundtripVerify.v (invariance),
+   = the signer's steps.  Proofs: Proofs/HdrCi.v (the case-insensitive
+   headerValue), Proofs/SxgRoundtripVerify.v (invariance),
    Proofs/SxgRoundtripVerifySigned.v (a signed exchange verifies),
-   Proofs/SxgRoundtripVerifyEx.v (runs with SHA-256, witnesses).
+   Proofs/SxgRoundtripVerifyEx.v (runs with SHA-256).
 
-   Definitions used in the statements (Proofs/SxgRoundtripVerify*.v), repeated:
+   The theorems, as they now are:
 
-     key_stable h k : bool      every entry of the map h whose name equals k up to
-                                letter case has exactly the key canonical_key k
-                                (the key Header.Get(k) looks under)
-     looked_up v                the names Verify looks up in the response map:
-                                the digest header (MI-Draft2 / Digest) and, for b3,
-                                Content-Type, Cache-Control, Expires
-     lookup_stable e : bool  := forallb (key_stable (e_resph e)) (looked_up (e_ver e))
-     canonical_keys h : bool    every key of h is its own canonical_key (a map built
-                                with Header.Add / Set); implies lookup_stable
+   - [c02_verify_canon_invariant], [c02_verdict_same_after_roundtrip]: NO side
+     condition.  For every exchange, every oracle, every instant, Verify gives the
+     same verdict on e and on canon_exchange e; so for every readable e that
+     Write accepts, the verdict on what ReadExchange returns equals the verdict on
+     e.  Reason: Verify consults the response map through hdr_value_ci
+     (headerValue: all keys equal to the name up to letter case), and
+     [c02_hdr_value_ci_canon]: on a map whose names are distinct up to letter case
+     hdr_value_ci is the same before and after canonicalisation; a map with two
+     names equal up to case cannot be encoded, so no signature verifies and the
+     verdict is the same failure on both sides.
+   - [c02_signed_exchange_verifies] (+ _after_roundtrip): the exchange built by
+     MiEncodePayload + AddSignatureHeader verifies at every instant of
+     [date, expires] with the ORIGINAL payload.  Premises: the signing steps
+     returned Ok, the oracle facts (chain served and parsed, key supported, the
+     obtained signature verifies, SHA-256 has 32 bytes), wfb sg (a Go []byte), and
+     the boolean [policy_ok].  No premise on the digest header: a value under the
+     canonical key makes MiEncodePayload fail, a key spelled otherwise makes
+     signed_message fail (duplicate name up to case).
+
      set_sig e v                e with the Signature header value v
      policy_ok status_known e validity date expires rs : bool :=
           same_origin validity (e_uri e) is decided and true
        && post_ok status_known e     b1/b2: method GET or HEAD and no stateful request
                                      header; b3: IsCacheable; all: no uncached header
-       && (b3: Content-Type present)
+       && (b3: Content-Type present, hdr_value_ci)
        && negb (e_taint e)
        && 1 <= rs <= 16384           MI record size
        && expires - date <= 604800 && date, expires are int64
      time_ok tsec tnsec         |tsec| < 2^62 and 0 <= tnsec < 10^9
 
-   [lookup_stable] is the only side condition of the invariance theorem and it is
-   needed ([c02_verify_canon_needs_lookup_stable]): http.Header lookups match the
-   map KEY exactly, the signed / written form is case-folded.  No condition on
-   header names (tokens, distinctness) or taint is needed.                          *)
+   History.  An earlier version of these theorems needed a side condition
+   ("lookup_stable": the looked-up names are spelled canonically in the map) and
+   a premise "digest header absent", both with refutation witnesses.  The
+   witnesses were defects of the Go code, since repaired: F19 (verifier.go
+   headerValue matched the http.Header map key exactly, so a field stored under
+   "content-type" / "cache-control" was invisible in memory but visible after
+   Write / Read) and F20 (MiEncodePayload tested Get(digest) != "" and appended to
+   an existing empty value, producing a signed exchange that never verifies).
+   The same exchanges are now positive examples: [c02_low_ct_low_cc_same_verdict],
+   [c02_mi_encode_refuses_existing_digest].  A third repair (Exchange.Write
+   refuses a non-https fallback URL and a b2 ":url" request header) removed the
+   URL conjunct from [readable], used by the _after_roundtrip theorems below.                                         *)
 From WP Require Model.Mice Model.StructHdr Model.CertChain Proofs.SxgVerifySound.
-From WP Require Import Proofs.SxgRoundtripVerify Proofs.SxgRoundtripVerifySigned.
+From WP Require Import Proofs.HdrCi Proofs.SxgRoundtripVerify Proofs.SxgRoundtripVerifySigned.
 From WP Require Proofs.SxgVerifyExample Proofs.SxgRoundtripVerifyEx.
 
 (* ---- the verdict is the same before and after ------------------------------------------------ *)
@@ -279,27 +382,16 @@ Theorem c02_verify_canon_invariant :
   forall (H256 : bytes -> bytes) (x509_key : bytes -> option (option N))
          (sig_ok : N -> bytes -> bytes -> bool) (status_known : Z -> bool) (fetch : bytes -> R bytes)
          (e : exchange) (tsec tnsec : Z),
-    lookup_stable e = true ->
     verify H256 x509_key sig_ok status_known fetch (canon_exchange e) tsec tnsec
     = verify H256 x509_key sig_ok status_known fetch e tsec tnsec.
 Proof. exact verify_canon_invariant. Qed.
 Print Assumptions c02_verify_canon_invariant.
 
-Theorem c02_verify_canon_invariant_canonical :
-  forall (H256 : bytes -> bytes) (x509_key : bytes -> option (option N))
-         (sig_ok : N -> bytes -> bytes -> bool) (status_known : Z -> bool) (fetch : bytes -> R bytes)
-         (e : exchange) (tsec tnsec : Z),
-    canonical_keys (e_resph e) = true ->
-    verify H256 x509_key sig_ok status_known fetch (canon_exchange e) tsec tnsec
-    = verify H256 x509_key sig_ok status_known fetch e tsec tnsec.
-Proof. exact verify_canon_invariant_canonical. Qed.
-Print Assumptions c02_verify_canon_invariant_canonical.
-
 Theorem c02_verdict_same_after_roundtrip :
   forall (H256 : bytes -> bytes) (x509_key : bytes -> option (option N))
          (sig_ok : N -> bytes -> bytes -> bool) (status_known : Z -> bool) (fetch : bytes -> R bytes)
          (e : exchange) (bs : bytes),
-    readable e = true -> write e = Ok bs -> lookup_stable e = true ->
+    readable e = true -> write e = Ok bs ->
     exists e', read bs = Ok e' /\
       forall tsec tnsec,
         verify H256 x509_key sig_ok status_known fetch e' tsec tnsec
@@ -307,46 +399,29 @@ Theorem c02_verdict_same_after_roundtrip :
 Proof. exact verdict_same_after_roundtrip. Qed.
 Print Assumptions c02_verdict_same_after_roundtrip.
 
-(* what a reader returns always satisfies the side condition: from the second
-   generation on nothing changes any more *)
-Theorem c02_read_back_lookup_stable :
-  forall e, readable e = true -> lookup_stable (canon_exchange e) = true.
-Proof. exact read_back_lookup_stable. Qed.
-Print Assumptions c02_read_back_lookup_stable.
-
-Theorem c02_canonical_keys_lookup_stable :
-  forall e, canonical_keys (e_resph e) = true -> lookup_stable e = true.
-Proof. exact canonical_keys_lookup_stable. Qed.
-Print Assumptions c02_canonical_keys_lookup_stable.
-
-(* the lemma behind it: headerValue (the comma-joined list) of a name in the
-   canonical map *)
-Theorem c02_hdr_value_canon :
+(* the lemma behind it: the verifier's headerValue on the canonical map *)
+Theorem c02_hdr_value_ci_canon :
   forall (h : headers) (k : bytes),
     NoDup (map (fun nv => lower (fst nv)) h) ->
-    canonical_key (lower (canonical_key k)) = canonical_key k ->     (* any token k *)
-    key_stable h k = true ->
-    hdr_value (canon_headers h) k = hdr_value h k.
-Proof. exact hdr_value_canon. Qed.
-Print Assumptions c02_hdr_value_canon.
+    hdr_value_ci (canon_headers h) k = hdr_value_ci h k.
+Proof. exact hdr_value_ci_canon. Qed.
+Print Assumptions c02_hdr_value_ci_canon.
 
-(* the side condition is needed, in both directions: rejected in memory and
-   accepted after Write / Read (Content-Type under the key "content-type"), and
-   accepted in memory but rejected after Write / Read ("cache-control: no-store") *)
-Theorem c02_verify_canon_needs_lookup_stable :
-  exists e1 e2 tsec tnsec,
-    readable e1 = true /\ readable e2 = true /\
-    (exists bs, write e1 = Ok bs) /\ (exists bs, write e2 = Ok bs) /\
-    e_taint e1 = false /\ e_taint e2 = false /\
-    lookup_stable e1 = false /\ lookup_stable e2 = false /\
-    SxgVerifyExample.toy_verify e1 tsec tnsec = Invalid /\
-    SxgVerifyExample.toy_verify (canon_exchange e1) tsec tnsec = Valid SxgVerifyExample.toy_body /\
-    SxgRoundtripVerifyEx.read_back e1 = canon_exchange e1 /\
-    SxgVerifyExample.toy_verify e2 tsec tnsec = Valid SxgVerifyExample.toy_body /\
-    SxgVerifyExample.toy_verify (canon_exchange e2) tsec tnsec = Invalid /\
-    SxgRoundtripVerifyEx.read_back e2 = canon_exchange e2.
-Proof. exact SxgRoundtripVerifyEx.verify_canon_invariant_needs_lookup_stable. Qed.
-Print Assumptions c02_verify_canon_needs_lookup_stable.
+(* ... and what it is on such a map: the joined value of the one entry with that
+   name, however spelled; nothing if there is none *)
+Theorem c02_hdr_value_ci_unique :
+  forall (h : headers) (k n : bytes) (vs : list bytes),
+    NoDup (map (fun nv => lower (fst nv)) h) -> In (n, vs) h -> lower n = lower k ->
+    hdr_value_ci h k = join_comma vs.
+Proof. exact hdr_value_ci_unique. Qed.
+Print Assumptions c02_hdr_value_ci_unique.
+
+(* the NoDup premise is what signing / writing guarantee *)
+Theorem c02_encodable_names_distinct :
+  forall (e : exchange) (hdr : bytes),
+    encode_exchange_headers e = Ok hdr -> NoDup (map (fun nv => lower (fst nv)) (e_resph e)).
+Proof. exact encode_headers_ok_nodup. Qed.
+Print Assumptions c02_encodable_names_distinct.
 
 (* ---- what the library signs verifies, with the original payload ------------------------------ *)
 Theorem c02_signed_exchange_verifies :
@@ -354,9 +429,9 @@ Theorem c02_signed_exchange_verifies :
          (sig_ok : N -> bytes -> bytes -> bool) (status_known : Z -> bool) (fetch : bytes -> R bytes),
     (forall x, List.length (H256 x) = 32%nat) -> (forall x, wfb (H256 x)) ->
   forall (e0 e1 : exchange) (rs : N) (der cert_url validity : bytes) (date expires : Z)
-         (m sg hdr chain : bytes) (main : CertChain.augcert) (rest : list CertChain.augcert) (kid : N) (tsec tnsec : Z),
+         (m sg hdr chain : bytes) (main : CertChain.augcert) (rest : list CertChain.augcert) (kid : N)
+         (tsec tnsec : Z),
     (* signing, as the library does it *)
-    hdr_values (e_resph e0) (Mice.digest_header_name (mice_of (e_ver e0))) = [] ->
     mi_encode_payload H256 e0 rs = Ok e1 ->
     signed_message e1 (Some (H256 der)) validity date expires = Ok m ->
     signature_header_value H256 e1 [der] cert_url validity date expires sg = Ok hdr ->
@@ -383,8 +458,8 @@ Theorem c02_signed_exchange_verifies_after_roundtrip :
          (sig_ok : N -> bytes -> bytes -> bool) (status_known : Z -> bool) (fetch : bytes -> R bytes),
     (forall x, List.length (H256 x) = 32%nat) -> (forall x, wfb (H256 x)) ->
   forall (e0 e1 : exchange) (rs : N) (der cert_url validity : bytes) (date expires : Z)
-         (m sg hdr chain : bytes) (main : CertChain.augcert) (rest : list CertChain.augcert) (kid : N) (bs : bytes),
-    hdr_values (e_resph e0) (Mice.digest_header_name (mice_of (e_ver e0))) = [] ->
+         (m sg hdr chain : bytes) (main : CertChain.augcert) (rest : list CertChain.augcert) (kid : N)
+         (bs : bytes),
     mi_encode_payload H256 e0 rs = Ok e1 ->
     signed_message e1 (Some (H256 der)) validity date expires = Ok m ->
     signature_header_value H256 e1 [der] cert_url validity date expires sg = Ok hdr ->
@@ -397,7 +472,6 @@ Theorem c02_signed_exchange_verifies_after_roundtrip :
     sig_ok kid m sg = true ->
     policy_ok status_known (set_sig e1 hdr) validity date expires rs = true ->
     readable (set_sig e1 hdr) = true ->
-    lookup_stable (set_sig e1 hdr) = true ->
     write (set_sig e1 hdr) = Ok bs ->
     exists e', read bs = Ok e' /\
       forall tsec tnsec, SxgVerifySound.time_ok tsec tnsec ->
@@ -408,14 +482,23 @@ Theorem c02_signed_exchange_verifies_after_roundtrip :
 Proof. exact signed_exchange_verifies_after_roundtrip. Qed.
 Print Assumptions c02_signed_exchange_verifies_after_roundtrip.
 
-(* [lookup_stable] of the signed exchange follows from the caller's response map
-   being canonical (Header.Add keeps it so) *)
-Theorem c02_signed_lookup_stable :
-  forall (H : bytes -> bytes) (e0 e1 : exchange) (rs : N) (hdr : bytes),
-    1 <= rs -> canonical_keys (e_resph e0) = true -> mi_encode_payload H e0 rs = Ok e1 ->
-    lookup_stable (set_sig e1 hdr) = true.
-Proof. exact signed_lookup_stable. Qed.
-Print Assumptions c02_signed_lookup_stable.
+(* MiEncodePayload succeeded: no value under the canonical digest key before, and
+   the result is e0 + Content-Encoding + the digest header + the MI stream *)
+Theorem c02_mi_encode_payload_inv :
+  forall (H : bytes -> bytes) (e0 e1 : exchange) (rs : N), 1 <= rs ->
+    mi_encode_payload H e0 rs = Ok e1 ->
+    hdr_values (e_resph e0) (Mice.digest_header_name (mice_of (e_ver e0))) = [] /\
+    e1 = {| e_ver := e_ver e0; e_uri := e_uri e0; e_method := e_method e0; e_reqh := e_reqh e0;
+            e_status := e_status e0;
+            e_resph := hdr_add (hdr_add (e_resph e0) (s2b "Content-Encoding")
+                                        (Mice.content_encoding (mice_of (e_ver e0))))
+                               (Mice.digest_header_name (mice_of (e_ver e0)))
+                               (Spec.Mice.digest_header H (mice_of (e_ver e0)) rs (e_payload e0));
+            e_sig := e_sig e0;
+            e_payload := Spec.Mice.stream H (mice_of (e_ver e0)) rs (e_payload e0);
+            e_taint := e_taint e0 |}.
+Proof. exact mi_encode_payload_inv. Qed.
+Print Assumptions c02_mi_encode_payload_inv.
 
 (* the verifier's parser recovers exactly the seven parameters the signer wrote *)
 Theorem c02_signature_header_parsed :
@@ -433,19 +516,64 @@ Theorem c02_signature_header_parsed :
 Proof. exact signature_header_parsed. Qed.
 Print Assumptions c02_signature_header_parsed.
 
-(* "the digest header was absent" cannot be dropped: MiEncodePayload refuses only a
-   non-empty first value; with an empty one it signs and writes an exchange that
-   never verifies *)
-Example c02_signed_exchange_needs_absent_digest :
-  let e0 := SxgVerifyExample.plain V1b3 200 SxgVerifyExample.std_headers [(s2b "Digest", [[]])] in
-  (exists e, SxgVerifyExample.toy_sign e0 SxgVerifyExample.toy_date SxgVerifyExample.toy_expires = Ok e) /\
-  hdr_values (e_resph e0) (s2b "Digest") = [[]] /\
-  policy_ok SxgVerifyExample.toy_status SxgRoundtripVerifyEx.empty_digest SxgVerifyExample.toy_validity
-            SxgVerifyExample.toy_date SxgVerifyExample.toy_expires 16 = true /\
-  SxgVerifyExample.toy_verify SxgRoundtripVerifyEx.empty_digest SxgVerifyExample.toy_date 0 = Invalid /\
-  SxgVerifyExample.toy_verify (SxgRoundtripVerifyEx.read_back SxgRoundtripVerifyEx.empty_digest)
-                              SxgVerifyExample.toy_date 0 = Invalid.
-Proof. exact SxgRoundtripVerifyEx.signed_exchange_needs_absent_digest. Qed.
+(* ---- the former witnesses, now positive ----------------------------------------------------------- *)
+(* F19 repaired: Content-Type under the map key "content-type" (low_ct) is Valid in
+   memory, canonicalised and read back; "cache-control: no-store" under a
+   non-canonical key (low_cc) is Invalid in all three *)
+Example c02_low_ct_low_cc_same_verdict :
+  let V := SxgVerifyExample.toy_verify in
+  let back := SxgRoundtripVerifyEx.read_back in
+  let ct := SxgRoundtripVerifyEx.low_ct in let cc := SxgRoundtripVerifyEx.low_cc in
+  let d := SxgVerifyExample.toy_date in
+  readable ct = true /\ readable cc = true /\
+  back ct = canon_exchange ct /\ back cc = canon_exchange cc /\
+  V ct d 0%Z = Valid SxgVerifyExample.toy_body /\
+  V (canon_exchange ct) d 0%Z = Valid SxgVerifyExample.toy_body /\
+  V (back ct) d 0%Z = Valid SxgVerifyExample.toy_body /\
+  V cc d 0%Z = Invalid /\ V (canon_exchange cc) d 0%Z = Invalid /\ V (back cc) d 0%Z = Invalid.
+Proof. exact SxgRoundtripVerifyEx.low_ct_low_cc_same_verdict. Qed.
+
+(* b3: a stateful request header held in memory makes Verify refuse; Write stores no
+   request part; what ReadExchange returns is accepted *)
+Theorem c02_b3_stateful_request_header_verdict_flips :
+  let e := SxgRoundtripVerifyEx.b3_auth in
+  e_ver e = V1b3 /\ (exists bs, write e = Ok bs) /\
+  readable (b3_norm e) = true /\ readable e = false /\
+  SxgRoundtripVerifyEx.read_back e = canon_exchange (b3_norm e) /\
+  e_reqh (SxgRoundtripVerifyEx.read_back e) = [] /\
+  SxgVerifyExample.toy_verify e SxgVerifyExample.toy_date 0 = Invalid /\
+  SxgVerifyExample.toy_verify (SxgRoundtripVerifyEx.read_back e) SxgVerifyExample.toy_date 0
+  = Valid SxgVerifyExample.toy_body.
+Proof. exact SxgRoundtripVerifyEx.b3_stateful_request_header_verdict_flips. Qed.
+Print Assumptions c02_b3_stateful_request_header_verdict_flips.
+
+(* two keys equal up to letter case: not writable, Invalid on both sides *)
+Example c02_twin_keys_invalid :
+  write SxgRoundtripVerifyEx.twin_ct = Err /\
+  SxgVerifyExample.toy_verify SxgRoundtripVerifyEx.twin_ct SxgVerifyExample.toy_date 0 = Invalid /\
+  SxgVerifyExample.toy_verify (canon_exchange SxgRoundtripVerifyEx.twin_ct) SxgVerifyExample.toy_date 0
+  = Invalid.
+Proof. exact SxgRoundtripVerifyEx.twin_keys_invalid. Qed.
+
+(* F20 repaired: an existing digest value, even empty, is refused by MiEncodePayload *)
+Example c02_mi_encode_refuses_existing_digest :
+  mi_encode_payload Sha256.sha256
+    (SxgVerifyExample.plain V1b3 200 SxgVerifyExample.std_headers [(s2b "Digest", [[]])]) 16 = Err /\
+  SxgVerifyExample.toy_sign
+    (SxgVerifyExample.plain V1b3 200 SxgVerifyExample.std_headers [(s2b "Digest", [[]])])
+    SxgVerifyExample.toy_date SxgVerifyExample.toy_expires = Err /\
+  mi_encode_payload Sha256.sha256
+    (SxgVerifyExample.plain V1b1 200 SxgVerifyExample.std_headers [(s2b "Mi-Draft2", [[]; []])]) 16 = Err.
+Proof. exact SxgRoundtripVerifyEx.mi_encode_refuses_existing_digest. Qed.
+
+(* a raw key "digest" escapes MiEncodePayload's check but then nothing can be signed *)
+Example c02_lowercase_digest_cannot_be_signed :
+  let e0 := SxgVerifyExample.plain V1b3 200 SxgVerifyExample.std_headers [(s2b "digest", [s2b "x"])] in
+  (exists e1, mi_encode_payload Sha256.sha256 e0 16 = Ok e1 /\
+     signed_message e1 (Some (Sha256.sha256 SxgVerifyExample.toy_cert)) SxgVerifyExample.toy_validity
+                    SxgVerifyExample.toy_date SxgVerifyExample.toy_expires = Err) /\
+  SxgVerifyExample.toy_sign e0 SxgVerifyExample.toy_date SxgVerifyExample.toy_expires = Err.
+Proof. exact SxgRoundtripVerifyEx.lowercase_digest_cannot_be_signed. Qed.
 
 (* ---- examples ------------------------------------------------------------------------------------ *)
 (* headers in odd letter case, multi-valued fields, b1 / b2 / b3, SHA-256: Valid with
@@ -470,7 +598,7 @@ Proof.
             (conj SxgRoundtripVerifyEx.odd1_verdicts SxgRoundtripVerifyEx.odd3_outside))).
 Qed.
 
-(* the two theorems instantiated (hypotheses satisfiable), for every instant of the window *)
+(* the theorems instantiated (hypotheses satisfiable), for every instant of the window *)
 Example c02_signed_exchange_verifies_inst : forall tsec tnsec,
   SxgVerifySound.time_ok tsec tnsec ->
   (SxgVerifyExample.toy_date * 1000000000 <= tsec * 1000000000 + tnsec
